@@ -1575,6 +1575,8 @@ class GroupBy:
         2       45.0  50.0  55.0
         """
         result = self.apply(values=values, func=np.quantile, q=q, mask=mask)
+        if len(result) == 0:
+            return result
         if np.ndim(q) > 0:
             result.index = result.index.set_levels(q, level=-1)
         result.index.names = [*result.index.names[:-1], "q"]
